@@ -55,7 +55,7 @@ static void plan_gen(SPlan *P, uint64_t seed, const RunOpts *o) {
     for (int i = 0; i < P->nf; i++) {
         Fault *f = &P->f[i]; memset(f, 0, sizeof *f);
         uint32_t k = sim_rndn(100);
-        f->via = sim_rndn(5) == 0;
+        { uint32_t q = sim_rndn(10); f->via = q < 2 ? 1 : q == 2 ? 2 : 0; }
         if (k < 30) { f->kind = FT_FLIP; f->a = (long)(NVM_HEADER_SIZE * 8 + sim_rndn((uint32_t)((n - NVM_HEADER_SIZE) * 8))); }
         else if (k < 50) { f->kind = FT_TRUNC; uint32_t r = sim_rndn(10); f->a = r == 0 ? 0 : r == 1 ? (long)n - 1 : r == 2 ? NVM_HEADER_SIZE : r == 3 ? NVM_HEADER_SIZE - 1 : (long)sim_rndn((uint32_t)n); }
         else if (k < 72) { f->kind = FT_BURST; f->b = 2 + sim_rndn(31); f->a = (long)(NVM_HEADER_SIZE * 8 + sim_rndn((uint32_t)((n - NVM_HEADER_SIZE) * 8 - (uint32_t)f->b + 1))); f->c = (unsigned long)(sim_rnd() | 1); }
@@ -79,7 +79,7 @@ static void plan_print(SPlan *P, uint64_t seed, Buf *b) {
     buf_printf(b, "family store\nseed %llu\n", (unsigned long long)seed);
     knobs_print(b);
     buf_printf(b, "file %s %d\n", P->prog, P->tok);
-    for (int i = 0; i < P->nf; i++) buf_printf(b, "fault kind=%s a=%ld b=%ld c=%lu via=%s\n", ft_name[P->f[i].kind], P->f[i].a, P->f[i].b, P->f[i].c, P->f[i].via ? "daemon" : "vm");
+    for (int i = 0; i < P->nf; i++) buf_printf(b, "fault kind=%s a=%ld b=%ld c=%lu via=%s\n", ft_name[P->f[i].kind], P->f[i].a, P->f[i].b, P->f[i].c, P->f[i].via == 1 ? "daemon" : P->f[i].via == 2 ? "fifo" : "vm");
 }
 static bool plan_parse(SPlan *P, uint64_t *seed, const char *path) {
     FILE *f = __real_fopen(path, "r"); if (!f) return false;
@@ -91,7 +91,7 @@ static bool plan_parse(SPlan *P, uint64_t *seed, const char *path) {
         else if (strncmp(line, "knob ", 5) == 0) knobs_parse_line(line);
         else if (sscanf(line, "file %31s %d", k, &t) == 2) { snprintf(P->prog, sizeof P->prog, "%s", k); P->tok = t; }
         else if (sscanf(line, "fault kind=%31s a=%ld b=%ld c=%lu via=%15s", k, &a, &b, &c, v) == 5 && P->nf < 64) {
-            for (int i = 0; i < FT_NKINDS; i++) if (!strcmp(ft_name[i], k)) { P->f[P->nf] = (Fault){ i, a, b, c, strcmp(v, "daemon") == 0 }; P->nf++; break; }
+            for (int i = 0; i < FT_NKINDS; i++) if (!strcmp(ft_name[i], k)) { P->f[P->nf] = (Fault){ i, a, b, c, strcmp(v, "daemon") == 0 ? 1 : strcmp(v, "fifo") == 0 ? 2 : 0 }; P->nf++; break; }
         }
     }
     fclose(f);
@@ -130,6 +130,21 @@ static Outcome consume_vm(const uint8_t *d, size_t n) {
     oc.execs = vm_execs - e0; oc.dok = deser_ok - k0; oc.dfail = deser_fail - f0;
     return oc;
 }
+/* the same bytes offered through a named pipe: no size to ask for, no seeking, only a stream that ends */
+static Outcome consume_fifo(const uint8_t *d, size_t n) {
+    Outcome oc; memset(&oc, 0, sizeof oc);
+    simfs_put("/sim/f.fifo", d, n);
+    FsNode *nd = simfs_lookup("/sim/f.fifo"); if (nd) nd->kind = 2;
+    uint64_t e0 = vm_execs, k0 = deser_ok, f0 = deser_fail;
+    i_out.len = i_err.len = 0;
+    static char *av[] = { "nano_vm", "/sim/f.fifo", NULL };
+    SimProc *p = sim_spawn("nano_vm", "nano_vm", 2, av, &i_out, &i_err, sim_now_us());
+    int rc = sim_run();
+    oc.finished = rc == 0 && !p->alive; oc.status = p->status; oc.outlen = i_out.len; oc.errlen = i_err.len;
+    oc.execs = vm_execs - e0; oc.dok = deser_ok - k0; oc.dfail = deser_fail - f0;
+    if (nd) nd->kind = 0;
+    return oc;
+}
 static SimProc *g_daemon;
 static Outcome consume_daemon(const uint8_t *d, size_t n) {
     Outcome oc; memset(&oc, 0, sizeof oc);
@@ -150,7 +165,7 @@ static Outcome consume_daemon(const uint8_t *d, size_t n) {
 }
 
 static uint64_t n_inst, n_collision, n_unchanged, kinds_done[FT_NKINDS], n_daemon;
-static uint64_t n_prefiltered, n_prefilter_accepted;
+static uint64_t n_prefiltered, n_prefilter_accepted, n_fifo;
 static bool judge(Result *r, const char *what, const uint8_t *d, size_t n, const uint8_t *orig, size_t on, int via, long a, long b) {
     if (n == on && memcmp(d, orig, n) == 0) { n_unchanged++; return true; }
     if (n >= NVM_HEADER_SIZE) {
@@ -160,8 +175,8 @@ static bool judge(Result *r, const char *what, const uint8_t *d, size_t n, const
     }
     n_inst++;
     sim_forget_dead();
-    Outcome oc = via ? consume_daemon(d, n) : consume_vm(d, n);
-    if (via) n_daemon++;
+    Outcome oc = via == 1 ? consume_daemon(d, n) : via == 2 ? consume_fifo(d, n) : consume_vm(d, n);
+    if (via == 1) n_daemon++; if (via == 2) n_fifo++;
     const char *clause = NULL;
     if (!oc.finished) clause = "consumer-did-not-finish";
     else if (WIFSIGNALED(oc.status)) clause = "consumer-killed";
@@ -171,9 +186,9 @@ static bool judge(Result *r, const char *what, const uint8_t *d, size_t n, const
     else if (oc.outlen) clause = "program-output";
     else if (oc.errlen == 0) clause = "no-error-text";
     if (clause) {
-        res_violation(r, "C12", "%s:%s:%s", clause, what, via ? "daemon" : "vm");
+        res_violation(r, "C12", "%s:%s:%s", clause, what, via == 1 ? "daemon" : via == 2 ? "fifo" : "vm");
         buf_printf(&r->detail, "damaged file (%s a=%ld b=%ld, %zu bytes, original %zu) via %s: %s (status=0x%x stdout=%zuB stderr=%zuB vm_execute calls=%llu nvm_deserialize ok=%llu fail=%llu)\n",
-                   what, a, b, n, on, via ? "daemon" : "nano_vm", clause, oc.status, oc.outlen, oc.errlen,
+                   what, a, b, n, on, via == 1 ? "daemon" : via == 2 ? "nano_vm reading a named pipe" : "nano_vm", clause, oc.status, oc.outlen, oc.errlen,
                    (unsigned long long)oc.execs, (unsigned long long)oc.dok, (unsigned long long)oc.dfail);
         return false;
     }
@@ -210,7 +225,7 @@ static void fam_run(uint64_t seed, const RunOpts *o, Result *r) {
     Ref *ref = ref_lookup(P.prog, P.tok);
     if (!m || !ref || !ref->valid) { strcpy(r->verdict, "skip"); return; }
     SimKnobs saved = K; sim_reset(); K = saved; sim_seed(seed ^ 0xC12ull);
-    g_daemon = NULL; n_inst = n_collision = n_unchanged = n_daemon = 0; n_prefiltered = n_prefilter_accepted = 0; memset(kinds_done, 0, sizeof kinds_done);
+    g_daemon = NULL; n_inst = n_collision = n_unchanged = n_daemon = 0; n_prefiltered = n_prefilter_accepted = n_fifo = 0; memset(kinds_done, 0, sizeof kinds_done);
 
     /* control arm: the unfaulted file loads, runs and matches its reference */
     Outcome c0 = consume_vm(m->d, m->n);
@@ -219,7 +234,7 @@ static void fam_run(uint64_t seed, const RunOpts *o, Result *r) {
 
     /* second control arm: the same long-lived daemon first loads and runs the INTACT file; every damaged copy that
      * follows goes to that same process (a loader that remembers what it has verified must not be fooled) */
-    bool any_daemon = false; for (int i = 0; i < P.nf; i++) any_daemon |= P.f[i].via;
+    bool any_daemon = false; for (int i = 0; i < P.nf; i++) any_daemon |= P.f[i].via == 1;
     if (any_daemon) {
         Outcome cd = consume_daemon(m->d, m->n);
         bool dok = cd.finished && cd.dok >= 1 && cd.execs == 1 && cd.outlen == ref->out.len;
@@ -278,7 +293,7 @@ static void fam_run(uint64_t seed, const RunOpts *o, Result *r) {
     snprintf(r->class_key, sizeof r->class_key, "%s.%d/%llu", P.prog, P.tok, (unsigned long long)seed);
     probe(r, "fault_instances", n_inst); probe(r, "true_crc_collisions_skipped", n_collision); probe(r, "unchanged_skipped", n_unchanged);
     probe(r, "inbyte_bursts_offered_to_loader", n_prefiltered); probe(r, "inbyte_bursts_loader_accepted", n_prefilter_accepted);
-    probe(r, "via_daemon", n_daemon); probe(r, "control_arm_ok", 1); probe(r, "exhaustive_sweep_chunks", P.sweep);
+    probe(r, "via_daemon", n_daemon); probe(r, "via_named_pipe", n_fifo); probe(r, "control_arm_ok", 1); probe(r, "exhaustive_sweep_chunks", P.sweep);
     { uint64_t total = 0; for (int tk = 0; tk < 2; tk++) for (int i = 0; i < corpus_nprogs(); i++) { Module *cm = corpus_find(corpus_prog(i), tk); if (cm) total += ((uint64_t)(cm->n - NVM_HEADER_SIZE) * 8 + 511) / 512; }
       buf_printf(&r->extra, "\"sweep_total_chunks\":%llu", (unsigned long long)total); }
     for (int k = 0; k < FT_NKINDS; k++) { char nm[32]; snprintf(nm, sizeof nm, "kind_%s", ft_name[k]); probe(r, nm, kinds_done[k]); }
